@@ -1495,6 +1495,16 @@ M('C01', 'default new_axes from the position of the group in the argument (round
   "            first_cl = np.array([cl[0] for cl in combine_legs])\n            new_axes = [(np.sum(non_combined_legs < a) + np.sum(first_cl < a)) for a in first_cl]", "            new_axes = [(np.sum(non_combined_legs < cl[0]) + i) for i, cl in enumerate(combine_legs)]",
   'AXIS-default-order-free')
 
+M('C20', 'original defect: emit iterates over the live listener list', EV,
+  "        results = []\n        for _, callback, _, extra_kwargs in list(self.listeners):  # copy: a callback may (dis)connect", "        results = []\n        for _, callback, _, extra_kwargs in self.listeners:",
+  'EV-emit-snapshot')
+M('C20', 'original defect: decorator form of connect drops extra_kwargs', EV,
+  "                self.connect(callback, priority, extra_kwargs)", "                self.connect(callback, priority)",
+  'EV-decorator-forward')
+M('C20', 'emit iterates over a tuple copy (twin)', EV,
+  "        results = []\n        for _, callback, _, extra_kwargs in list(self.listeners):  # copy: a callback may (dis)connect", "        results = []\n        for _, callback, _, extra_kwargs in tuple(self.listeners):",
+  None, expect='silent')
+
 # ---------------------------------------------------------------- C16 / C19
 M('C16', 'GMRES restart: relative residual norm used for normalisation (round-3 seed b)', KRY,
   """        self.total_error.append([npc.norm(self.rs[-1]) / self.b_norm])
